@@ -2,11 +2,12 @@
     DeliverTx = ante routing (extension option) → ante chain (ValidateBasic, signer check,
     AnteDecoratorStakingCommission as described by the generated facts) → message router with the
     dispatch rules of authz MsgExec / wasm dispatch (wasmext.handleSdkMessage, incl. its commission
-    check when present) / gov MsgSubmitProposal / ICA host → x/staking CreateValidator, EditValidator
+    check when present) / gov MsgSubmitProposal / ICA host / x/group MsgSubmitProposal (when the linked
+    application routes it — the SET of message carriers is a generated fact) → x/staking CreateValidator, EditValidator
     (rate ≤ max rate, max change rate, 24 h rule, MinCommissionRate).  No proofs in this file. *)
 From Coq Require Import List Bool Arith ZArith String.
 Import ListNotations.
-Require Import Nib.C17.AnteFacts Nib.C17.MsgTree.
+Require Import Nib.C17.AnteFacts Nib.C17.CarrierTree.
 Local Open Scope Z_scope.
 
 Definition ONE : Z := 1000000000000000000.
@@ -74,8 +75,13 @@ Definition granted (s : st) (granter grantee : addr) (k : mkind) : bool :=
 Definition with_vals (s : st) (l : list (addr * val)) : st :=
   {| vals := l; grants := grants s; now := now s; min_rate := min_rate s |}.
 
-(** x/staking msg server (the commission part) and authz Grant *)
-Definition leaf_run (s : st) (l : leaf) : option st :=
+(** the msg service router has a handler for the message type ([gr]: x/group is routed) *)
+Definition kind_routed (gr : bool) (k : mkind) : bool :=
+  match k with MKGroup => gr | MKUnk _ => false | _ => true end.
+
+(** x/staking msg server (the commission part) and authz Grant (authz Keeper.Grant refuses an authorization for a
+    message type without handler) *)
+Definition leaf_run (gr : bool) (s : st) (l : leaf) : option st :=
   match l with
   | CreateVal op r mx ch =>
       if r <? min_rate s then None else
@@ -101,7 +107,9 @@ Definition leaf_run (s : st) (l : leaf) : option st :=
           else Some (with_vals s (set_val (vals s) op {| v_rate := r; v_max := v_max v; v_chg := v_chg v; v_time := now s |}))
       end
   | Grant a b k =>
-      Some {| vals := vals s; grants := (a, b, k) :: grants s; now := now s; min_rate := min_rate s |}
+      if kind_routed gr k
+      then Some {| vals := vals s; grants := (a, b, k) :: grants s; now := now s; min_rate := min_rate s |}
+      else None
   | Send _ => Some s
   end.
 
@@ -122,7 +130,9 @@ Record cfg := {
   cont_exec : bool;                 (* after a MsgExec whose content was checked the scan of the list goes on *)
   cont_staking : bool;              (* after a create/edit message within the cap the scan goes on *)
   cont_other : bool;                (* after any other message the scan goes on *)
-  wasm_check : bool                 (* wasmext.handleSdkMessage applies the same check before routing *)
+  wasm_check : bool;                (* wasmext.handleSdkMessage applies the same check before routing *)
+  group_routed : bool;              (* the linked application's msg service router executes x/group MsgSubmitProposal *)
+  carriers_known : bool             (* every routed message type that carries sdk.Msgs is one the model has a rule for *)
 }.
 
 (** things that are chain state / deployment rather than code *)
@@ -130,7 +140,8 @@ Record world := {
   w_reflects : addr -> addr -> bool;   (* contract → sender → does the contract dispatch the given messages *)
   w_gov : addr;                         (* gov module account *)
   w_ica_acct : addr -> bool;            (* registered interchain accounts *)
-  w_ica_allow : mkind -> bool           (* ICA host allow-list *)
+  w_ica_allow : mkind -> bool;          (* ICA host allow-list *)
+  w_group_member : addr -> addr -> bool (* group policy account -> address: member whose yes vote alone passes a proposal *)
 }.
 
 (** "operand.METHOD(bound)" is true: the decorator rejects *)
@@ -189,7 +200,8 @@ Definition wasm_admits (c : cfg) (ctr : addr) (t : msg) : bool :=
   Nat.eqb (signer leaf leaf_signer t) ctr && negb (wasm_check c && dec_rejects c 0 t).
 
 Definition run_msg (c : cfg) (w : world) : msg -> st -> option st :=
-  run leaf leaf_signer leaf_kind st leaf_basic leaf_run granted (w_reflects w) (wasm_admits c) (w_gov w) (w_ica_acct w) (w_ica_allow w).
+  run leaf leaf_signer leaf_kind st leaf_basic (leaf_run (group_routed c)) granted (w_reflects w) (wasm_admits c) (w_gov w) (w_ica_acct w) (w_ica_allow w)
+      (group_routed c) (w_group_member w).
 
 Definition run_msgs (c : cfg) (w : world) (ms : list msg) (s : st) : option st :=
   seq_opt (run_msg c w) (fun _ _ => true) ms s.
@@ -271,6 +283,37 @@ Definition step (c : cfg) (w : world) (s : st) (e : event) : st :=
 
 Definition run_history (c : cfg) (w : world) (s : st) (h : list event) : st := fold_left (step c w) h s.
 
+(** ---------------------------------------------------------------- message carriers of the linked application *)
+(** Which message types carry messages is not a constant of this model: harness/gen/c17 links the application and
+    lists every ROUTED sdk.Msg type with a google.protobuf.Any field that accepts an sdk.Msg (decided by running the
+    type's own UnpackInterfaces on a packed MsgSend) or with an accessor returning []sdk.Msg.  The model has a
+    dispatch rule for these; any other routed carrier makes [carriers_known] false.  (wasm MsgExecuteContract and
+    IBC MsgRecvPacket carry messages as bytes, invisible to that probe: they are modelled unconditionally.) *)
+Inductive carrier_rule :=
+| CrExec      (* authz MsgExec: [Exec] *)
+| CrGov       (* gov v1 MsgSubmitProposal: [Gov] *)
+| CrGroup     (* x/group MsgSubmitProposal: [Group] *)
+| CrSelf.     (* MsgEthereumTx.GetMsgs returns the message itself (it doubles as an sdk.Tx); it carries nothing *)
+
+Definition URL_EXEC := "/cosmos.authz.v1beta1.MsgExec".
+Definition URL_GOV_SUBMIT := "/cosmos.gov.v1.MsgSubmitProposal".
+Definition URL_GROUP_SUBMIT := "/cosmos.group.v1.MsgSubmitProposal".
+Definition URL_ETH_TX := "/eth.evm.v1.MsgEthereumTx".
+
+Definition carrier_rule_of (u : string) : option carrier_rule :=
+  if String.eqb u URL_EXEC then Some CrExec
+  else if String.eqb u URL_GOV_SUBMIT then Some CrGov
+  else if String.eqb u URL_GROUP_SUBMIT then Some CrGroup
+  else if String.eqb u URL_ETH_TX then Some CrSelf
+  else None.
+
+(** routed types with an Any field their UnpackInterfaces never looks at, known not to hold messages:
+    MsgSoftwareUpgrade.Plan.upgraded_client_state (deprecated; Plan.ValidateBasic requires it to be nil) *)
+Definition opaque_known (u : string) : bool := String.eqb u "/cosmos.upgrade.v1beta1.MsgSoftwareUpgrade".
+
+Definition carriers_all_known (carriers opaque : list string) : bool :=
+  forallb (fun u => match carrier_rule_of u with Some _ => true | None => false end) carriers && forallb opaque_known opaque.
+
 (** ---------------------------------------------------------------- cfg from the generated facts *)
 Definition cmp_of_site (x : comparison_site) (operand : string) (need_nil_safe : bool) : option cmp_method :=
   if String.eqb (c_operand x) operand && String.eqb (c_bound x) "MAX_COMMISSION()" && c_rejects x
@@ -278,7 +321,8 @@ Definition cmp_of_site (x : comparison_site) (operand : string) (need_nil_safe :
   then Some (c_method x) else None.
 
 Definition cfg_of_facts (nonevm evm : list string) (x : ext_facts) (g : guard) (cs es : comparison_site)
-           (sc : scan_facts) (mx : option Z) (wh : wasm_facts) (registered_ext : list string) : cfg :=
+           (sc : scan_facts) (mx : option Z) (wh : wasm_facts) (registered_ext : list string)
+           (carriers opaque : list string) : cfg :=
   {| cap := match mx with Some z => z | None => ONE + 1 end;
      nonevm_known := match route_of x NoExt with RouteNonEVM => true | _ => false end;   (* overridden for the genesis cfg *)
      evm_route := route_of x EvmExt;
@@ -296,37 +340,51 @@ Definition cfg_of_facts (nonevm evm : list string) (x : ext_facts) (g : guard) (
      cont_exec := s_after_exec sc && s_after_switch sc;
      cont_staking := s_after_create sc && s_after_edit sc && s_after_switch sc;
      cont_other := s_after_other sc && s_after_switch sc;
-     wasm_check := w_commission_check wh |}.
+     wasm_check := w_commission_check wh;
+     group_routed := mem URL_GROUP_SUBMIT carriers;
+     carriers_known := carriers_all_known carriers opaque |}.
 
 (** the configuration in force for gentxs (block height 0): the decorator list of the constructor the routing
     picks at height 0; the route is known when that constructor's list could be read *)
 Definition genesis_cfg_of_facts (genesis_chain evm : list string) (x : ext_facts) (g : guard) (cs es : comparison_site)
-           (sc : scan_facts) (mx : option Z) (wh : wasm_facts) (registered_ext : list string) : cfg :=
-  let c := cfg_of_facts genesis_chain evm x g cs es sc mx wh registered_ext in
+           (sc : scan_facts) (mx : option Z) (wh : wasm_facts) (registered_ext : list string)
+           (carriers opaque : list string) : cfg :=
+  let c := cfg_of_facts genesis_chain evm x g cs es sc mx wh registered_ext carriers opaque in
   {| cap := cap c;
      nonevm_known := negb (mem "?missing" genesis_chain) && negb (String.eqb (x_no_ext_height0 x) "?")
                      && negb (String.eqb (x_no_ext_height0 x) "?multi");
      evm_route := evm_route c; other_route := other_route c; evm_only_eth := evm_only_eth c;
      vb_on := vb_on c; sig_on := sig_on c; dec_on := dec_on c; dec_create := dec_create c; dec_edit := dec_edit c;
      dec_exec := dec_exec c; dec_rec := dec_rec c; cont_exec := cont_exec c; cont_staking := cont_staking c;
-     cont_other := cont_other c; wasm_check := wasm_check c |}.
+     cont_other := cont_other c; wasm_check := wasm_check c; group_routed := group_routed c; carriers_known := carriers_known c |}.
 
 (** the code as committed with the two fix: commits (used for examples and witnesses) *)
 Definition cfg_fixed : cfg :=
   {| cap := CAP25; nonevm_known := true; evm_route := RouteEVM; other_route := RouteReject; evm_only_eth := true;
      vb_on := true; sig_on := true; dec_on := true; dec_create := Some CmpGT; dec_edit := Some CmpGT;
-     dec_exec := true; dec_rec := true; cont_exec := true; cont_staking := true; cont_other := true; wasm_check := true |}.
+     dec_exec := true; dec_rec := true; cont_exec := true; cont_staking := true; cont_other := true; wasm_check := true;
+     group_routed := false; carriers_known := true |}.
 
 (** the decorator before fix ac46b2c: top-level messages only; no wasm check *)
 Definition cfg_before_fix : cfg :=
   {| cap := CAP25; nonevm_known := true; evm_route := RouteEVM; other_route := RouteReject; evm_only_eth := true;
      vb_on := true; sig_on := true; dec_on := true; dec_create := Some CmpGT; dec_edit := Some CmpGT;
-     dec_exec := false; dec_rec := false; cont_exec := true; cont_staking := true; cont_other := true; wasm_check := false |}.
+     dec_exec := false; dec_rec := false; cont_exec := true; cont_staking := true; cont_other := true; wasm_check := false;
+     group_routed := false; carriers_known := true |}.
 
 (** recursive decorator, wasm handler without the check (between the two fixes) *)
 Definition cfg_no_wasm_check : cfg :=
   {| cap := CAP25; nonevm_known := true; evm_route := RouteEVM; other_route := RouteReject; evm_only_eth := true;
      vb_on := true; sig_on := true; dec_on := true; dec_create := Some CmpGT; dec_edit := Some CmpGT;
-     dec_exec := true; dec_rec := true; cont_exec := true; cont_staking := true; cont_other := true; wasm_check := false |}.
+     dec_exec := true; dec_rec := true; cont_exec := true; cont_staking := true; cont_other := true; wasm_check := false;
+     group_routed := false; carriers_known := true |}.
+
+(** the committed guards, x/group wired into the application (seeded change C17-group-module-wired): the router
+    executes group MsgSubmitProposal, nothing looks into the messages it carries *)
+Definition cfg_group_wired : cfg :=
+  {| cap := CAP25; nonevm_known := true; evm_route := RouteEVM; other_route := RouteReject; evm_only_eth := true;
+     vb_on := true; sig_on := true; dec_on := true; dec_create := Some CmpGT; dec_edit := Some CmpGT;
+     dec_exec := true; dec_rec := true; cont_exec := true; cont_staking := true; cont_other := true; wasm_check := true;
+     group_routed := true; carriers_known := true |}.
 
 Definition st0 (minr : Z) : st := {| vals := []; grants := []; now := 0; min_rate := minr |}.
